@@ -342,6 +342,40 @@ type D3 struct {
 	Id   string ` + "`json:\"id,omitempty\"`" + `
 }
 
+// embedded generic instantiations, an unexported embedded struct with exported fields, embedded interfaces
+type EmbGen struct {
+	Page[int]
+	*Box[string]
+	Z string ` + "`json:\"z\"`" + `
+}
+type hidden struct {
+	HX int    ` + "`json:\"hx\" validate:\"required\"`" + `
+	hy string ` + "`json:\"hy\"`" + `
+}
+type EmbHidden struct {
+	hidden
+	Stringish
+	Y int ` + "`json:\"y\"`" + `
+}
+type Stringish interface{ String() string }
+type EmbIface struct {
+	error
+	Stringish
+	X int ` + "`json:\"x\" validate:\"required\"`" + `
+}
+
+// nested containers
+type Deep struct {
+	A [][]string            ` + "`json:\"a\"`" + `
+	B map[string][]*Deep    ` + "`json:\"b\"`" + `
+	C *[]map[string]any     ` + "`json:\"c,omitempty\"`" + `
+	D **Deep                ` + "`json:\"d\"`" + `
+	E [2][3]uint8           ` + "`json:\"e\"`" + `
+	F map[string]map[int]ID ` + "`json:\"f\"`" + `
+	G []Raw                 ` + "`json:\"g\"`" + `
+	H [4]byte               ` + "`json:\"h\"`" + `
+}
+
 // generic types
 type Page[T any] struct {
 	Items []T      ` + "`json:\"items\" validate:\"required\"`" + `
@@ -359,7 +393,7 @@ type Box[T any] struct {
 }
 `
 
-var hand = []string{"SelfEmb", "EmbA", "EmbB", "EmbNon", "D1", "D2", "D3"}
+var hand = []string{"SelfEmb", "EmbA", "EmbB", "EmbNon", "D1", "D2", "D3", "EmbGen", "EmbHidden", "EmbIface", "Deep"}
 
 func genPkg(r *hx.Rand, p, other *pkgT, nStructs, nReqs int, fixed []string) {
 	p.structs = append(p.structs, hand...) // declared in `common`
